@@ -1,0 +1,27 @@
+//go:build verif
+
+package middleware
+
+import "com.tuntun.rangers/node/src/middleware/notify"
+
+// verif hook H8: in-package access to the gateway request queue for the
+// verification harness (push through the production path, read the waiting
+// request ids).
+
+// VerifQueuePush feeds one message through heapPush, as the loop of the
+// AccountDBManager does for every message of the data channel.
+func VerifQueuePush(pq *PriorityQueue, msg *notify.ClientTransactionMessage) {
+	pq.heapPush(msg)
+}
+
+// VerifQueueWaiting returns the request ids still waiting in the queue
+// (heap order).
+func VerifQueueWaiting(pq *PriorityQueue) []uint64 {
+	out := make([]uint64, 0, len(pq.data))
+	for _, it := range pq.data {
+		if it != nil && it.Value != nil {
+			out = append(out, it.Value.Nonce)
+		}
+	}
+	return out
+}
